@@ -14,6 +14,7 @@ CONSTANTS
   ListAns = {}
   MaxItems = 1
   Layouts = {}
+  TableOnly = {"g1212"}
   OkRecomputed = FALSE
 INVARIANT InvStage
 INVARIANT InvGradesInUnit
